@@ -1,6 +1,6 @@
 """C10 - binding calls validate arguments, hand only legal sets to the OS, and round-trip.
 Oracle: spec/Bind.tla (Rel); model: spec/MC_Bind.tla; binding: spec/TraceBind.tla, harness/hwv_bind.c"""
-import os, random, json, itertools, concurrent.futures as cf
+import os, re, time, random, json, itertools, concurrent.futures as cf
 import vlib
 
 DOC_STRICT = os.environ.get("C10_DOC_STRICT", "0") == "1"
@@ -139,12 +139,8 @@ def beh_text(ki, thr, hist):
     return "\n".join([ki.reset_line(thr)] + [call_line(o) for o in hist]) + "\n"
 
 
-PRINTED = None
-
-
 def printed(out, tag):
     """payloads of  <<"TAG", "json">>  printed by PrintT (TLC may wrap the tuple over several lines)"""
-    import re
     for m in re.finditer(r'<<\s*"%s",\s*"((?:[^"\\]|\\.)*)"\s*>>' % tag, out):
         yield json.loads(json.loads('"' + m.group(1) + '"'))
 
@@ -221,7 +217,7 @@ def run(ctx, replay=None):
         p = ctx.path("replay-%d.beh" % random.randrange(1 << 30))
         open(p, "w").write(text)
         t = p + ".ndjson"
-        ctx.record(exe, p, t)
+        ctx.record(exe, p, t, env={"HWV_WATCHDOG": "300"})
         return ctx.validate("TraceBind", t, cfg=vcfg, nshards=1)
 
     if replay:
@@ -258,7 +254,7 @@ def run(ctx, replay=None):
     jobs = []
     allpols = [-1, 0, 1, 2, 3, 4, 5, 6]
     memflags_q = [0, 1, 2, 3, 4, 8, 16, 32, 33, 34, 36, 40, 44, 63, 64, 96, 1 << 20]
-    memflags_t = list(range(0, 128)) + [1 << 20, (1 << 20) + 32]
+    memflags_t = list(range(0, 64)) + [64, 96, 127, 1 << 20, (1 << 20) + 32, -1]
     cpuflags = list(range(0, 32)) + [1 << 20, (1 << 20) + 2, -1]
     S = lambda *a: frozenset(a)
     Q = (lambda q, t: t) if thorough else (lambda q, t: q)
@@ -274,13 +270,13 @@ def run(ctx, replay=None):
         jobs.append(("val_cpu_" + ki.name, ki, 0,
                      cfg_record(ki, ["main"], CPU_SET_OPS + CPU_GET_OPS, full_c, [S()], cpuflags, [0], [0], [1], [], True), Q(1.0 if big else 0.25, 1.0), 60, 2))
         jobs.append(("val_mem_" + ki.name, ki, 0,
-                     cfg_record(ki, ["main"], MEM_SET_OPS + MEM_GET_OPS, Q(small_c, full_c), full_n, [0],
+                     cfg_record(ki, ["main"], MEM_SET_OPS + MEM_GET_OPS, small_c, full_n, [0],
                                 Q(memflags_q, memflags_t), allpols, [0, 1], [], True), Q(0.3 if big else 0.12, 1.0), 60, 2))
         if not ki.ts:
             continue
         # (B) CPU round trip: set / get / last location from every reachable (pair of) thread affinities
         ok_c = [s for s in topo4 if s] + [frozenset(ki.CS), frozenset(ki.CC), S(), S(1, 7)] + ([S(6)] if 6 in catoms else [])
-        two = thorough or ki.name == "native"
+        two = ki.name == "native" or (thorough and ki.name == "xmld_ts")
         jobs.append(("rt_cpu_" + ki.name, ki, 1 if two else 0,
                      cfg_record(ki, ["main", "helper"] if two else ["main"], CPU_SET_OPS + CPU_GET_OPS, ok_c, [S()],
                                 Q([0, 1, 2, 3, 4, 5, 6, 16], [0, 1, 2, 3, 4, 5, 6, 8, 10, 16]), [0], [0], [1], [], False), Q(0.1 if two else 0.5, 1.0), 80, 4 if two else 2))
@@ -290,7 +286,7 @@ def run(ctx, replay=None):
             ok_mc = [S(1), S(3), frozenset(ki.CS), S(1, 2), S(3, 4)]
             jobs.append(("rt_mem_" + ki.name, ki, 0,
                          cfg_record(ki, ["main"], MEM_SET_OPS + MEM_GET_OPS, Q(ok_mc[:3], ok_mc), ok_n, [0],
-                                    Q([0, 2, 32, 34, 36, 40, 33], [0, 2, 32, 34, 36, 40, 44, 33, 4]), [0, 1, 2, 3, 5, 4], [1], [], False), Q(0.1, 1.0), 80, 2))
+                                    Q([0, 2, 32, 34, 36, 40, 33], [0, 2, 32, 34, 36, 40, 44, 33, 4]), [0, 1, 2, 3, 5, 4], [1], [], False), Q(0.1, 0.6), 80, 2))
         # (D) hwloc_topology_load() (default components, x86 only) from every binding of the calling thread
         if ki.name == "native":
             for thr in (0, 1):
@@ -299,7 +295,6 @@ def run(ctx, replay=None):
                                         [s for s in topo4 if s], [S()], [2], [0], [0], [1], Q(["x86"] if thr else ["default", "x86"], ["default", "x86"]), False), 1.0, 40, 1))
 
     behs, meta = [], []
-    import time
     t0 = time.time()
     # one TLC run explores every configuration (the configuration is chosen in Init)
     nrun = 2 if thorough else 1
@@ -331,12 +326,28 @@ def run(ctx, replay=None):
     vlib.log("C10: model runs + tours %.0fs, %d behaviours" % (time.time() - t0, len(behs)))
     # group behaviours with the same topology so that the recorder's topology cache is effective (order is deterministic)
     ctx.samples = [behs[0], behs[len(behs) // 2], behs[-1]]
-    bf = ctx.path("behaviours.txt")
-    open(bf, "w").write("".join(behs))
-    tf = ctx.path("trace.ndjson")
+    # several recorder processes side by side (each has its own threads, affinities and memory policy;
+    # a rebinding call mostly waits for the kernel to migrate the thread); recorder i takes behaviours i, i+nrec, ...
     t0 = time.time()
-    ctx.record(exe, bf, tf, timeout=3000)
-    vlib.log("C10: recorded in %.0fs (%d MB)" % (time.time() - t0, os.path.getsize(tf) >> 20))
+    nrec = min(8, max(1, vlib.NCPU // 2), max(1, len(behs) // 50))
+
+    def record_slice(i):
+        bf = ctx.path("behaviours-%d.txt" % i)
+        open(bf, "w").write("".join(behs[i::nrec]))
+        ctx.record(exe, bf, bf + ".ndjson", timeout=6000, env={"HWV_WATCHDOG": "300"})
+        return bf + ".ndjson"
+
+    with cf.ThreadPoolExecutor(max_workers=nrec) as ex:
+        parts = list(ex.map(record_slice, range(nrec)))
+    tf = ctx.path("trace.ndjson")
+    with open(tf, "w") as fo:                  # one trace, behaviour numbers made global again
+        for i, pf in enumerate(parts):
+            for line in open(pf, errors="replace"):
+                if nrec > 1 and '"beh":' in line[:40]:
+                    line = re.sub(r'"beh":(-?\d+)', lambda m: '"beh":%d' % (int(m.group(1)) * nrec + i if int(m.group(1)) >= 0 else -1), line, count=1)
+                fo.write(line)
+            os.unlink(pf)
+    vlib.log("C10: recorded in %.0fs by %d recorders (%d MB)" % (time.time() - t0, nrec, os.path.getsize(tf) >> 20))
     t0 = time.time()
     rejs = ctx.validate("TraceBind", tf, cfg=vcfg)
     vlib.log("C10: validated in %.0fs" % (time.time() - t0))
